@@ -7,7 +7,7 @@
    [resolve defs d = Ok e] restrict a statement to dictionaries the constructor accepts (the reject theorems and
    the correspondence check say which those are). *)
 From Isobar Require Import Base.Prelude Tonal.Key Tonal.KeyProofs Generated.Tables Generated.TablesC03
-  Sched.Event Sched.EventSpec Sched.EventProofs.
+  Sched.Event Sched.EventSpec Sched.EventProofs Sched.EventCfg Sched.EventCfgProofs.
 From Coq Require Import String QArith.
 Local Open Scope Z_scope.
 Local Notation length := List.length (only parsing).
@@ -349,3 +349,92 @@ Proof.
   split; [reflexivity|]. intros k v Hin. vm_compute in Hin.
   repeat (destruct Hin as [Hin|Hin]; [inversion Hin; subst; eexists; reflexivity|]). contradiction.
 Qed.
+
+(** * Streams of several dictionaries and a timeline that is re-configured while the track runs (Sched/EventCfg.v:
+      the defaults object is part of the state; [cplay N muted ch n t st] runs n ticks from tick t in state st, the
+      assignments [ch] to timeline.defaults happening between the ticks).  The statements below hold in EVERY state,
+      that is after any number of dictionaries already played and any assignments already made. *)
+
+(* Rejection is per dictionary, not per stream: whenever the dictionary that is due has an unknown key, the error
+   escapes from that tick and the device receives nothing at that tick but the note-offs of earlier notes *)
+Theorem C03_reject_unknown_key_anywhere : forall N muted ch n t st d rest k v,
+  c_stream st = d :: rest -> Qle_bool (c_next st) (t # N) = true ->
+  In (k, v) d -> known_param k = false ->
+  exists offs, cplay N muted ch (S n) t st = (tag t offs, Raise ValueError) /\ only_note_offs offs.
+Proof.
+  intros N muted ch n t st d rest k v Hs Hd Hin Hk.
+  apply (cplay_reject N muted ch n t st d rest ValueError Hs Hd); [|reflexivity].
+  exact (reject_unknown _ d k v Hin Hk).
+Qed.
+Print Assumptions C03_reject_unknown_key_anywhere.
+
+Theorem C03_reject_note_with_degree_anywhere : forall N muted ch n t st d rest,
+  c_stream st = d :: rest -> Qle_bool (c_next st) (t # N) = true ->
+  defaults_shape (apply_changes ch (t - 1) (c_defs st)) -> defaults_ready (apply_changes ch (t - 1) (c_defs st)) ->
+  (forall k v, In (k, v) d -> known_param k = true) -> dhas d K_NOTE = true -> dhas d K_DEGREE = true ->
+  exists offs, cplay N muted ch (S n) t st = (tag t offs, Raise InvalidEventException) /\ only_note_offs offs.
+Proof.
+  intros N muted ch n t st d rest Hs Hd Hsh Hr Hk Hn Hdg.
+  apply (cplay_reject N muted ch n t st d rest InvalidEventException Hs Hd); [|reflexivity].
+  exact (reject_note_degree _ d Hsh Hr Hk Hn Hdg).
+Qed.
+Print Assumptions C03_reject_note_with_degree_anywhere.
+
+Theorem C03_reject_no_type_anywhere : forall N muted ch n t st d rest,
+  c_stream st = d :: rest -> Qle_bool (c_next st) (t # N) = true ->
+  defaults_shape (apply_changes ch (t - 1) (c_defs st)) -> defaults_ready (apply_changes ch (t - 1) (c_defs st)) ->
+  (forall k v, In (k, v) d -> known_param k = true) -> no_type_key d ->
+  exists offs, cplay N muted ch (S n) t st = (tag t offs, Raise InvalidEventException) /\ only_note_offs offs.
+Proof.
+  intros N muted ch n t st d rest Hs Hd Hsh Hr Hk Hn.
+  apply (cplay_reject N muted ch n t st d rest InvalidEventException Hs Hd); [|reflexivity].
+  exact (reject_no_type _ d Hsh Hr Hk Hn).
+Qed.
+Print Assumptions C03_reject_no_type_anywhere.
+
+(* "else the timeline's defaults": the dictionary that is due is completed by the defaults as they are at that tick,
+   every assignment made so far included - the messages of the tick are those of [dispatch] on
+   [resolve (current defaults) d], to which C03_param_source / C03_timeline_default / C03_note_pitch apply *)
+Theorem C03_current_defaults_complete_the_event : forall N muted ch n t st d rest e dur,
+  c_stream st = d :: rest -> Qle_bool (c_next st) (t # N) = true ->
+  flat_defaults (apply_changes ch (t - 1) (c_defs st)) = true ->
+  resolve (apply_changes ch (t - 1) (c_defs st)) d = Ok e ->
+  py_float (e_duration e) = Ok dur -> Qle_bool (Qred (c_next st + dur)) (t # N) = false ->
+  snd (cplay N muted ch (S n) t st) <> Unmodelled ->
+  exists offs tr, fst (cplay N muted ch (S n) t st) = tag t (offs ++ p_calls (dispatch muted e)) ++ tr
+                  /\ only_note_offs offs.
+Proof. exact cplay_performs. Qed.
+Print Assumptions C03_current_defaults_complete_the_event.
+
+(* timeline.defaults.k = v: the last assignment to a name is what the name holds, no other name is touched, and the
+   object keeps the attribute names of the library defaults (so the hypotheses above stay available) *)
+Theorem C03_reassigned_default : forall defs kvs k v,
+  dget (assign defs (kvs ++ [(k, v)])) k = Some v
+  /\ (forall k', String.eqb k' k = false -> dget (assign defs [(k, v)]) k' = dget defs k')
+  /\ (defaults_shape defs -> (forall kv, In kv (kvs ++ [(k, v)]) -> dhas lib_defaults (fst kv) = true) ->
+      defaults_shape (assign defs (kvs ++ [(k, v)]))).
+Proof.
+  intros defs kvs k v. split; [apply assign_last|]. split; [intros k' H; apply assign_one_other; exact H|].
+  intros Hs Hk. apply assign_shape; assumption.
+Qed.
+Print Assumptions C03_reassigned_default.
+
+(* when nothing is re-assigned the stateful model is Sched/Event.v's run_track on the stream paired with the defaults
+   (a pattern-valued default moving on by one value per event): the theorems about run_track carry over *)
+Theorem C03_stream_without_reassignment : forall N muted n defs ds,
+  flat_defaults defs = true -> run_cfg N muted n defs [] ds = run_track N muted n (pair_up defs ds).
+Proof. exact run_cfg_run_track. Qed.
+Print Assumptions C03_stream_without_reassignment.
+
+Example C03_stream_nonvacuous :
+  (* the second dictionary of a stream has a misspelt key: the first is played, then the error, the third never *)
+  run_cfg 4 false 12 lib_defaults []
+    [[("note"%string, VInt 60)]; [("note"%string, VInt 62); ("amplitde"%string, VInt 80)]; [("note"%string, VInt 64)]]
+  = ([(0, Call "note_on" [VInt 60; VInt 64; VInt 0]); (4, Call "note_off" [VInt 60; VInt 0])], Raise ValueError)
+  (* octave and channel re-assigned after tick 1, between the two events: the second event uses the new values *)
+  /\ run_cfg 4 false 6 lib_defaults [(1, [("octave"%string, VInt 5); ("channel"%string, VInt 3)])]
+       [[("note"%string, VInt 1)]; [("note"%string, VInt 2)]]
+     = ([(0, Call "note_on" [VInt 1; VInt 64; VInt 0]); (4, Call "note_off" [VInt 1; VInt 0]);
+         (4, Call "note_on" [VInt 62; VInt 64; VInt 3])], Ok tt)
+  /\ flat_defaults lib_defaults = true.
+Proof. vm_compute. repeat split. Qed.
